@@ -15,6 +15,7 @@ import (
 	"math/big"
 	"sort"
 	"strings"
+	"time"
 
 	"verifharness/data"
 	"verifharness/drv"
@@ -76,11 +77,33 @@ func foreign(raw json.RawMessage, resp *drv.Response) error {
 	resp.Count(fmt.Sprintf("foreign/honest/%s/%d/%s", req.Instance, req.K, req.Mode), false)
 	resp.Note("hint_names", names)
 	resp.Note("foreign_sites", len(sites))
+	// a hint used all over the verifier (e.g. a re-implemented reduction) has hundreds of static sites: a spread of at most twelve of them
+	// and a time budget keep the guard a guard (the first accepted alternative is what matters)
+	if len(sites) > 12 {
+		var pick []*engine.SiteStat
+		for i := 0; i < 12; i++ {
+			pick = append(pick, sites[i*len(sites)/12])
+		}
+		resp.Note("foreign_sites_probed", len(pick))
+		sites = pick
+	}
+	t0 := time.Now()
 	for _, st := range sites {
+		if time.Since(t0) > 6*time.Minute || len(resp.Violations) >= 3 {
+			resp.Note("foreign_truncated", true)
+			break
+		}
 		// every sampled occurrence until each family of moves has been applied at three of them (a move may apply to a fraction of
 		// the inputs only)
 		applied := map[string]int{}
+		plusR := true // (whether this shape has a move that applies to a fraction of the inputs only; known after the first occurrence)
 		for oi, oc := range st.Sample {
+			if oi >= 3 && !plusR {
+				break
+			}
+			if oi == 0 {
+				plusR = false
+			}
 			for ai := 0; ; ai++ {
 				var chosen *engine.Alternative
 				nalts := 0
@@ -88,6 +111,11 @@ func foreign(raw json.RawMessage, resp *drv.Response) error {
 				c2.Strategy = func(c *engine.HintCall) []*big.Int {
 					alts := engine.ForeignAlternatives(c)
 					nalts = len(alts)
+					for _, x := range alts {
+						if strings.Contains(x.Family, "plus-r") {
+							plusR = true
+						}
+					}
 					if ai >= len(alts) {
 						panic(engine.LocalPass)
 					}
